@@ -542,10 +542,13 @@ def run(ctx):
         rows.append(row)
         back.append(i)
     SH = 400
-    shards = [("c19_%d" % (k // SH), shard_src(rows[k:k + SH])) for k in range(0, len(rows), SH)]
+    shards = [("c19_s%d_p%d_%d" % (ctx.seed, os.getpid(), k // SH), shard_src(rows[k:k + SH]))
+              for k in range(0, len(rows), SH)]
     mism, n_modelled, mism_samples = [], 0, []
     if ok:
-        res = common.run_shards(ctx, shards)
+        res = {}
+        for g in range(0, len(shards), 6):          # at most 6 shard compilers at a time
+            res.update(common.run_shards(ctx, shards[g:g + 6]))
         import re
         for si, (name, _) in enumerate(shards):
             rc, out = res[name]
@@ -556,6 +559,13 @@ def run(ctx):
             m = re.findall(r"=\s*(\d+)\s*:\s*nat", out)
             n_modelled += int(m[-1]) if m else 0
             mism += [(si * SH + b // 4, b % 4) for b in bad]
+        bad_shards = {gi // SH for gi, _ in mism}
+        for si, (name, _) in enumerate(shards):       # keep only the shard sources that show a disagreement
+            if si not in bad_shards and res.get(name, (1, ""))[0] == 0:
+                try:
+                    os.remove(os.path.join(ctx.gen, "cases_%s.v" % name))
+                except OSError:
+                    pass
         reported = 0
         for gi, code in mism:
             r = recs[back[gi]]
